@@ -229,6 +229,22 @@ theorem tree_line_eval (dec thou : String) (s : Sum F) (ps : List (Nat × Piece 
   obtain ⟨ast, h1, h2⟩ := SCP.C02.parse_eval s rates conv vs
   exact ⟨s.toks, ast, by rw [lex_render dec thou ps t hok hsep, htoks], h1, h2⟩
 
+/-- a comment never reaches the tokens: whatever follows the first `#` is irrelevant -/
+theorem comment_irrelevant (dec thou : String) (t c c' : List Char) (h : '#' ∉ t) :
+    (lexLine dec thou (t ++ '#' :: c) : Option (List (Tok F))) = lexLine dec thou (t ++ '#' :: c') ∧
+    (lexLine dec thou (t ++ '#' :: c) : Option (List (Tok F))) = lexLine dec thou t := by
+  have hp : ∀ a ∈ t, (decide (a ≠ '#')) = true := by
+    intro a ha; simp only [decide_eq_true_eq]; intro e; exact h (e ▸ ha)
+  have h1 : ∀ r, (t ++ '#' :: r).takeWhile (· ≠ '#') = t := by
+    intro r
+    rw [List.takeWhile_append_of_pos hp]
+    simp
+  have h2 : t.takeWhile (· ≠ '#') = t := by
+    have := List.takeWhile_append_of_pos (p := fun x => decide (x ≠ '#')) (l₁ := t) (l₂ := []) hp
+    simpa using this
+  unfold lexLine
+  simp only [h1, h2, and_self]
+
 /-! non-vacuity: the pieces of `12 *( 3,5+-4)` with their gaps satisfy the hypotheses, and the model
     lexer returns their tokens -/
 example : ((codeLex "," "." 40 "12 *( 3,5+-4)".toList : Option (List (Tok Rat))).map fun ts =>
